@@ -512,7 +512,7 @@ class NaryOperator(Operator):
 
         count = 0
         for arg in self.args:
-            fn_str += str(arg)
+            fn_str += str(extractTerm(arg, time))
             count += 1
             if count < num_args:
                 fn_str += ","
@@ -720,12 +720,12 @@ class NumericalMultiplicationOperator(BinaryOperator):
                 cur_el1 = self.element_1
                 for i in self.index:
                     cur_el1 = cur_el1[i]
-                return "({}) * ({})".format(str(self.element_2), cur_el1.term(time))
+                return "({}) * ({})".format(self.element_2.term(time), cur_el1.term(time))
 
             else:
-                return "(" + str(self.element_2) + ") * (" + self.element_1.term(time) + ")"
+                return "(" + self.element_2.term(time) + ") * (" + self.element_1.term(time) + ")"
         else:
-            return "(" + str(self.element_2) + ") * (" + self.element_1.term(time) + ")"
+            return "(" + self.element_2.term(time) + ") * (" + self.element_1.term(time) + ")"
 
     def resolve_dimensions(self):
         dim1 = _get_element_dimensions(self.element_1)
@@ -1149,7 +1149,7 @@ class Lookup(Function):
             self.points = points
 
     def term(self, time="t"):
-        return "model._lookup({},{})".format(self.element, self.points)
+        return "model._lookup({},{})".format(extractTerm(self.element, time), self.points)
 
 
 class Step(Function):
@@ -1251,7 +1251,8 @@ class Delay(Function):
 
 
 def extractTerm(obj, time):
-    return obj.term(time) if isinstance(obj, Operator) else obj
+    # elements have to be rendered at the requested time too: str(element) always renders at "t"
+    return obj.term(time) if isinstance(obj, (Operator, BPTK_Py.sddsl.element.Element)) else obj
 
 
 class Random(Function):
@@ -1387,8 +1388,8 @@ class Sinwave(Function):
         self.amplitude = amplitude
         self.period = period
 
-    def term(self, time="t"): return "( np.sin(2*np.pi / {} * (t-model.starttime) ) * {} )".format(
-        extractTerm(self.period, time), extractTerm(self.amplitude, time))
+    def term(self, time="t"): return "( np.sin(2*np.pi / {} * ({}-model.starttime) ) * {} )".format(
+        extractTerm(self.period, time), time, extractTerm(self.amplitude, time))
 
 
 class Coswave(Function):
@@ -1396,8 +1397,8 @@ class Coswave(Function):
         self.amplitude = amplitude
         self.period = period
 
-    def term(self, time="t"): return "( np.cos(2*np.pi / {} * (t-model.starttime) ) * {} )".format(
-        extractTerm(self.period, time), extractTerm(self.amplitude, time))
+    def term(self, time="t"): return "( np.cos(2*np.pi / {} * ({}-model.starttime) ) * {} )".format(
+        extractTerm(self.period, time), time, extractTerm(self.amplitude, time))
 
 
 class Inf(Function):
